@@ -10,17 +10,20 @@ import (
 	"errors"
 	"fmt"
 	"io"
+	"net"
 	"os"
 	"path/filepath"
 	"strings"
 	"sync"
 	"sync/atomic"
+	"syscall"
 	"time"
 
 	"github.com/mutagen-io/mutagen/pkg/logging"
 	"github.com/mutagen-io/mutagen/pkg/selection"
 	"github.com/mutagen-io/mutagen/pkg/synchronization"
 	"github.com/mutagen-io/mutagen/pkg/synchronization/core"
+	"github.com/mutagen-io/mutagen/pkg/synchronization/endpoint/remote"
 	"github.com/mutagen-io/mutagen/pkg/synchronization/rsync"
 	urlpkg "github.com/mutagen-io/mutagen/pkg/url"
 
@@ -78,6 +81,11 @@ type Hooks struct {
 	// OnTransition, if non-nil, is called with the context the controller
 	// passes to Transition, before Transition is consulted.
 	OnTransition func(ctx context.Context, session string, alpha bool)
+	// Remote, if it returns true for an endpoint being connected, makes that
+	// endpoint a remote one: remote.NewEndpoint talking to remote.ServeEndpoint
+	// (same process, same root) over a kernel socket pair, i.e. everything
+	// goes through the agent protocol.
+	Remote func(session string, alpha bool) bool
 	// Stage / Supply are skipped (reported as fully pre-staged) when
 	// Transition is scripted and this is true.
 	SkipStaging bool
@@ -98,7 +106,13 @@ func (h *journalingHandler) Connect(ctx context.Context, logger *logging.Logger,
 	if j != nil {
 		j.Add(Event{Session: session, Alpha: alpha, Call: "connect", Phase: "begin"})
 	}
-	ep, err := h.real.Connect(ctx, logger, url, prompter, session, version, configuration, alpha)
+	var ep synchronization.Endpoint
+	var err error
+	if hk := activeHooks.Load(); hk != nil && hk.Remote != nil && hk.Remote(session, alpha) {
+		ep, err = connectRemote(logger, url.Path, session, version, configuration, alpha)
+	} else {
+		ep, err = h.real.Connect(ctx, logger, url, prompter, session, version, configuration, alpha)
+	}
 	if j != nil {
 		j.Add(Event{Session: session, Alpha: alpha, Call: "connect", Phase: "end", Err: errString(err)})
 	}
@@ -106,6 +120,27 @@ func (h *journalingHandler) Connect(ctx context.Context, logger *logging.Logger,
 		return nil, err
 	}
 	return &journalingEndpoint{Endpoint: ep, session: session, alpha: alpha}, nil
+}
+
+// connectRemote serves the root through the agent protocol inside this
+// process and returns the client endpoint.
+func connectRemote(logger *logging.Logger, root, session string, version synchronization.Version, configuration *synchronization.Configuration, alpha bool) (synchronization.Endpoint, error) {
+	fds, err := syscall.Socketpair(syscall.AF_UNIX, syscall.SOCK_STREAM, 0)
+	if err != nil {
+		return nil, err
+	}
+	var conns [2]net.Conn
+	for i, fd := range fds {
+		file := os.NewFile(uintptr(fd), fmt.Sprintf("socketpair-%d", i))
+		conn, err := net.FileConn(file)
+		file.Close()
+		if err != nil {
+			return nil, err
+		}
+		conns[i] = conn
+	}
+	go remote.ServeEndpoint(logger, conns[1])
+	return remote.NewEndpoint(logger, conns[0], root, session, version, configuration, alpha)
 }
 
 func errString(err error) string {
